@@ -627,3 +627,435 @@ Proof.
     cbn [straddle_ok]. rewrite (Hall r (or_introl eq_refl)). cbn [orb andb].
     apply IH. intros o Ho. apply Hall. right; exact Ho.
 Qed.
+
+(* ---------------------------------------------------------------------------------------- *)
+(* G. The queue: accounting invariants, progress (no deadlock), termination                  *)
+(* ---------------------------------------------------------------------------------------- *)
+From Coq Require Import Permutation.
+
+Definition cnt {A} (P : A -> bool) (l : list A) : nat := length (filter P l).
+
+Lemma cnt_app {A} (P : A -> bool) l1 l2 : cnt P (l1 ++ l2) = (cnt P l1 + cnt P l2)%nat.
+Proof. unfold cnt. now rewrite filter_app, app_length. Qed.
+
+Lemma cnt_cons {A} (P : A -> bool) x l : cnt P (x :: l) = ((if P x then 1 else 0) + cnt P l)%nat.
+Proof. unfold cnt. cbn [filter]. destruct (P x); reflexivity. Qed.
+
+Lemma cnt_perm {A} (P : A -> bool) l1 l2 : Permutation l1 l2 -> cnt P l1 = cnt P l2.
+Proof.
+  induction 1 as [|x l l' _ IH|x y l|l l' l'' _ IH1 _ IH2]; rewrite ?cnt_cons; lia.
+Qed.
+
+Lemma cnt_pos_in {A} (P : A -> bool) l : (0 < cnt P l)%nat -> exists x, In x l /\ P x = true.
+Proof.
+  induction l as [|x l IH]; [cbn; lia|]. rewrite cnt_cons. destruct (P x) eqn:E.
+  - intros _. exists x. split; [left; reflexivity | exact E].
+  - intro H. destruct (IH H) as (y & Hy & HP). exists y. split; [right; exact Hy | exact HP].
+Qed.
+
+Lemma cnt_in_pos {A} (P : A -> bool) l x : In x l -> P x = true -> (0 < cnt P l)%nat.
+Proof.
+  induction l as [|y l IH]; [intros []|]. intros [-> | Hx] HP; rewrite cnt_cons.
+  - rewrite HP. lia.
+  - specialize (IH Hx HP). lia.
+Qed.
+
+Lemma cnt_remove_nth {A} (P : A -> bool) : forall k l x, nth_error l k = Some x ->
+  cnt P l = ((if P x then 1 else 0) + cnt P (remove_nth k l))%nat.
+Proof.
+  induction k as [|k IH]; intros [|y l] x H; try discriminate; cbn [nth_error] in H.
+  - inversion H; subst. cbn [remove_nth]. apply cnt_cons.
+  - cbn [remove_nth]. rewrite !cnt_cons. rewrite (IH l x H). lia.
+Qed.
+
+Lemma remove_nth_in {A} : forall k (l : list A) y, In y (remove_nth k l) -> In y l.
+Proof.
+  induction k as [|k IH]; intros [|x l] y H; cbn [remove_nth] in H; try (destruct H; fail).
+  - right; exact H.
+  - destruct H as [-> | H]; [left; reflexivity | right; apply (IH l y H)].
+Qed.
+
+Lemma remove_nth_length {A} : forall k (l : list A) x, nth_error l k = Some x ->
+  length l = S (length (remove_nth k l)).
+Proof.
+  induction k as [|k IH]; intros [|y l] x H; try discriminate; cbn [nth_error remove_nth length] in *.
+  - reflexivity.
+  - now rewrite (IH l x H).
+Qed.
+
+(* occurrences of a priority in priorities_in_flight *)
+Definition occ (p : N) (l : list N) : nat := cnt (N.eqb p) l.
+
+Lemma occ_push p q l : occ p (pif_push q l) = ((if N.eqb p q then 1 else 0) + occ p l)%nat.
+Proof.
+  unfold occ. induction l as [|x l IH]; cbn [pif_push].
+  - rewrite cnt_cons. reflexivity.
+  - destruct (q <=? x); rewrite !cnt_cons; [reflexivity | rewrite IH; lia].
+Qed.
+
+Lemma occ_remove p q l : occ p (pif_remove q l) = (occ p l - (if N.eqb p q && Nat.ltb 0 (occ q l) then 1 else 0))%nat.
+Proof.
+  unfold occ. induction l as [|x l IH]; cbn [pif_remove].
+  - cbn. destruct (N.eqb p q); reflexivity.
+  - destruct (N.eqb q x) eqn:E.
+    + assert (q = x) by lia; subst x. rewrite !cnt_cons. rewrite N.eqb_refl.
+      destruct (Nat.ltb 0 (1 + cnt (N.eqb q) l)) eqn:EL; [|apply Nat.ltb_ge in EL; lia].
+      destruct (N.eqb p q) eqn:E2; cbn [andb]; lia.
+    + rewrite !cnt_cons, IH, E. cbn [Nat.add].
+      destruct (Nat.ltb 0 (cnt (N.eqb q) l)) eqn:EL;
+        destruct (N.eqb p x) eqn:E3; destruct (N.eqb p q) eqn:E4; cbn [andb]; try lia.
+Qed.
+
+Lemma occ_remove_n p q : forall n l, (n <= occ q l)%nat ->
+  occ p (pif_remove_n n q l) = (occ p l - (if N.eqb p q then n else 0))%nat.
+Proof.
+  induction n as [|n IH]; intros l Hn; cbn [pif_remove_n].
+  - destruct (p =? q); lia.
+  - rewrite IH.
+    + rewrite occ_remove. destruct (p =? q) eqn:E; cbn [andb]; [|lia].
+      destruct (0 <? occ q l)%nat eqn:E2; [lia|]. apply Nat.ltb_ge in E2. lia.
+    + rewrite occ_remove, N.eqb_refl. cbn [andb]. destruct (0 <? occ q l)%nat eqn:E2; lia.
+Qed.
+
+Lemma min_in_flight_occ l p : min_in_flight l = p -> l <> [] -> (0 < occ p l)%nat.
+Proof.
+  destruct l as [|x l]; [congruence|]. cbn [min_in_flight]. intros -> _.
+  unfold occ. rewrite cnt_cons, N.eqb_refl. lia.
+Qed.
+
+Definition of_batch (id : N) (t : task) : bool := t_batch t =? id.
+Definition sumf (g : batch -> nat) (l : list batch) : nat := fold_right (fun b a => (g b + a)%nat) 0%nat l.
+Definition deliv_at (p : N) (b : batch) : nat := if b_prio b =? p then b_deliv b else 0%nat.
+
+Lemma sumf_app g l1 l2 : sumf g (l1 ++ l2) = (sumf g l1 + sumf g l2)%nat.
+Proof. induction l1 as [|b l1 IH]; cbn [sumf fold_right app]; [reflexivity|]. fold (sumf g (l1 ++ l2)) (sumf g l1). lia. Qed.
+
+Lemma sumf_remove_nth g : forall k l x, nth_error l k = Some x -> sumf g l = (g x + sumf g (remove_nth k l))%nat.
+Proof.
+  induction k as [|k IH]; intros [|y l] x H; try discriminate; cbn [nth_error] in H.
+  - inversion H; subst. reflexivity.
+  - cbn [remove_nth sumf fold_right]. fold (sumf g l) (sumf g (remove_nth k l)). rewrite (IH l x H). lia.
+Qed.
+
+Lemma sumf_in_le g l x : In x l -> (g x <= sumf g l)%nat.
+Proof.
+  induction l as [|y l IH]; [intros []|]. cbn [sumf fold_right]. fold (sumf g l).
+  intros [-> | H]; [lia | specialize (IH H); lia].
+Qed.
+
+Lemma sumf_pos_in g l : (0 < sumf g l)%nat -> exists x, In x l /\ (0 < g x)%nat.
+Proof.
+  induction l as [|y l IH]; cbn [sumf fold_right]; [lia|]. fold (sumf g l). intro H.
+  destruct (Nat.eq_dec (g y) 0) as [Hz | Hz].
+  - destruct IH as (x & Hx & Hg); [lia|]. exists x. split; [right; exact Hx | exact Hg].
+  - exists y. split; [left; reflexivity | lia].
+Qed.
+
+(* upd_batch with an update that keeps the id *)
+Lemma upd_batch_ids id h bs : (forall b, b_id (h b) = b_id b) -> map b_id (upd_batch id h bs) = map b_id bs.
+Proof.
+  intro Hh. unfold upd_batch. rewrite map_map. apply map_ext. intro b. destruct (b_id b =? id); [apply Hh | reflexivity].
+Qed.
+
+Lemma upd_batch_in id h bs b' : In b' (upd_batch id h bs) ->
+  exists b, In b bs /\ b' = (if b_id b =? id then h b else b).
+Proof. unfold upd_batch. rewrite in_map_iff. intros (b & Hb & Hin). exists b. split; [exact Hin | symmetry; exact Hb]. Qed.
+
+Lemma upd_batch_in' id h bs b : In b bs -> In (if b_id b =? id then h b else b) (upd_batch id h bs).
+Proof. intro H. unfold upd_batch. apply in_map_iff. exists b. split; [reflexivity | exact H]. Qed.
+
+Lemma upd_batch_notin id h bs : ~ In id (map b_id bs) -> upd_batch id h bs = bs.
+Proof.
+  induction bs as [|b bs IH]; intro H; [reflexivity|]. cbn [upd_batch map] in *.
+  destruct (b_id b =? id) eqn:E; [exfalso; apply H; left; lia|].
+  f_equal. apply IH. intro Hin. apply H. right. exact Hin.
+Qed.
+
+Lemma sumf_upd g id h : forall bs b, NoDup (map b_id bs) -> In b bs -> b_id b = id ->
+  (sumf g (upd_batch id h bs) + g b = sumf g bs + g (h b))%nat.
+Proof.
+  induction bs as [|x bs IH]; intros b Hnd Hin Hid; [destruct Hin|].
+  cbn [map] in Hnd. inversion Hnd as [|? ? Hnotin Hnd']; subst.
+  cbn [upd_batch map sumf fold_right]. fold (upd_batch (b_id b) h bs). fold (sumf g (upd_batch (b_id b) h bs)) (sumf g bs).
+  destruct Hin as [-> | Hin].
+  - rewrite N.eqb_refl. rewrite (upd_batch_notin _ h bs Hnotin). lia.
+  - destruct (b_id x =? b_id b) eqn:E.
+    + exfalso. apply Hnotin. assert (b_id x = b_id b) by lia. rewrite H. apply in_map. exact Hin.
+    + specialize (IH b Hnd' Hin eq_refl). lia.
+Qed.
+
+Lemma sumf_upd_same g id h bs : (forall b, g (h b) = g b) -> sumf g (upd_batch id h bs) = sumf g bs.
+Proof.
+  intro Hh. induction bs as [|x bs IH]; [reflexivity|].
+  cbn [upd_batch map sumf fold_right]. fold (upd_batch id h bs). fold (sumf g (upd_batch id h bs)) (sumf g bs).
+  rewrite IH. destruct (b_id x =? id); [rewrite Hh|]; reflexivity.
+Qed.
+
+Lemma in_remove_nth {A} : forall k (l : list A) x y, nth_error l k = Some x -> In y l -> y = x \/ In y (remove_nth k l).
+Proof.
+  induction k as [|k IH]; intros [|z l] x y H Hin; try discriminate; cbn [nth_error remove_nth] in *.
+  - inversion H; subst. destruct Hin as [-> | Hin]; [left; reflexivity | right; exact Hin].
+  - destruct Hin as [-> | Hin]; [right; left; reflexivity|].
+    destruct (IH l x y H Hin) as [-> | H']; [left; reflexivity | right; right; exact H'].
+Qed.
+
+Lemma map_remove_nth {A B} (g : A -> B) : forall k l, map g (remove_nth k l) = remove_nth k (map g l).
+Proof. induction k as [|k IH]; intros [|x l]; cbn [remove_nth map]; try reflexivity. now rewrite IH. Qed.
+
+Lemma NoDup_remove_nth {A} : forall k (l : list A), NoDup l -> NoDup (remove_nth k l).
+Proof.
+  induction k as [|k IH]; intros [|x l] H; cbn [remove_nth]; try exact H; inversion H; subst; [assumption|].
+  constructor; [|apply IH; assumption]. intro Hin. apply remove_nth_in in Hin. contradiction.
+Qed.
+
+Lemma nth_error_remove_nth_notin {A} : forall k (l : list A) x, NoDup l -> nth_error l k = Some x -> ~ In x (remove_nth k l).
+Proof.
+  induction k as [|k IH]; intros [|y l] x Hnd H; try discriminate; cbn [nth_error remove_nth] in *; inversion Hnd; subst.
+  - inversion H; subst. assumption.
+  - intros [-> | Hin]; [apply nth_error_In in H; contradiction | apply (IH l x); assumption].
+Qed.
+
+Lemma NoDup_app_intro_single {A} (l : list A) x : NoDup l -> ~ In x l -> NoDup (l ++ [x]).
+Proof.
+  induction l as [|y l IH]; intros Hnd Hx; cbn [app]; [constructor; [intros [] | constructor]|].
+  inversion Hnd; subst. constructor.
+  - intro Hin. apply in_app_or in Hin. destruct Hin as [Hin | [-> | []]]; [contradiction | apply Hx; left; reflexivity].
+  - apply IH; [assumption | intro Hin; apply Hx; right; exact Hin].
+Qed.
+
+Section QueueProofs.
+  (* BinaryHeap::peek/pop: any tie-breaking among tasks of minimal priority *)
+  Variable pick : list task -> option (task * list task).
+  Hypothesis pick_some : forall l, l <> [] -> exists t rest, pick l = Some (t, rest).
+  Hypothesis pick_perm : forall l t rest, pick l = Some (t, rest) -> Permutation l (t :: rest).
+  Hypothesis pick_min : forall l t rest, pick l = Some (t, rest) -> forall t', In t' l -> t_prio t <= t_prio t'.
+  Variable cap : N.                       (* io_capacity = object_store.io_parallelism() *)
+  Hypothesis cap_pos : 0 < cap.
+
+  Definition pend_of (id : N) (s : sys) : nat := cnt (of_batch id) (q_pending (s_q s)).
+  Definition run_of (id : N) (s : sys) : nat := cnt (of_batch id) (s_running s).
+
+  (* accounting invariant while the scheduler is alive *)
+  Record Open (s : sys) : Prop := {
+    o_notdone : q_done (s_q s) = false;
+    o_iops : q_iops (s_q s) + N.of_nat (length (s_running s)) = cap;
+    o_ids : NoDup (map b_id (s_batches s));
+    o_fresh : Forall (fun b => b_id b < s_next s) (s_batches s);
+    o_tasks : forall t, In t (q_pending (s_q s) ++ s_running s) ->
+              exists b, In b (s_batches s) /\ b_id b = t_batch t /\ b_prio b = t_prio t;
+    o_counts : Forall (fun b => b_nreq b = (pend_of (b_id b) s + run_of (b_id b) s + b_fin b)%nat
+                                /\ b_deliv b = (run_of (b_id b) s + b_fin b)%nat) (s_batches s);
+    o_flight : forall p, occ p (q_inflight (s_q s)) = sumf (deliv_at p) (s_batches s);
+    o_nocancel : s_cancelled s = 0%nat }.
+
+  (* after ScanScheduler::drop *)
+  Record Closed (s : sys) : Prop := {
+    c_done : q_done (s_q s) = true;
+    c_pending : q_pending (s_q s) = [];
+    c_ids : NoDup (map b_id (s_batches s));
+    c_tasks : forall t, In t (s_running s) -> exists b, In b (s_batches s) /\ b_id b = t_batch t;
+    c_counts : Forall (fun b => b_nreq b = (run_of (b_id b) s + b_fin b)%nat) (s_batches s);
+    c_iops : q_iops (s_q s) + N.of_nat (length (s_running s)) = cap + N.of_nat (s_cancelled s) }.
+
+  Lemma Open_init buf : Open (sys_new cap buf).
+  Proof.
+    constructor; cbn; try reflexivity; try constructor; try lia; try (intros t []).
+  Qed.
+
+  Lemma fold_push prio id : forall sizes q,
+    let q' := fold_left (fun q sz => q_push q (mk_task prio sz id)) sizes q in
+    q_pending q' = q_pending q ++ map (fun sz => mk_task prio sz id) sizes
+    /\ q_iops q' = q_iops q /\ q_bytes q' = q_bytes q /\ q_inflight q' = q_inflight q /\ q_done q' = q_done q.
+  Proof.
+    induction sizes as [|sz sizes IH]; intro q; cbn [fold_left map].
+    - rewrite app_nil_r. repeat split.
+    - destruct (IH (q_push q (mk_task prio sz id))) as (H1 & H2 & H3 & H4 & H5).
+      cbn zeta in *. rewrite H1, H2, H3, H4, H5. cbn [q_push q_pending q_iops q_bytes q_inflight q_done].
+      rewrite <- app_assoc. repeat split.
+  Qed.
+
+  Lemma cnt_new_tasks prio id i sizes :
+    cnt (of_batch i) (map (fun sz => mk_task prio sz id) sizes) = if id =? i then length sizes else 0%nat.
+  Proof.
+    induction sizes as [|sz sizes IH]; cbn [map]; [destruct (id =? i); reflexivity|].
+    rewrite cnt_cons, IH. unfold of_batch. cbn [t_batch]. destruct (id =? i); cbn [length]; lia.
+  Qed.
+
+  Lemma no_task_of_fresh s t : Open s -> In t (q_pending (s_q s) ++ s_running s) -> t_batch t < s_next s.
+  Proof.
+    intros HO Ht. destruct (o_tasks s HO t Ht) as (b & Hb & Hid & _).
+    pose proof (o_fresh s HO) as Hf. rewrite Forall_forall in Hf. specialize (Hf b Hb). lia.
+  Qed.
+
+  Lemma cnt_zero_fresh s : Open s ->
+    cnt (of_batch (s_next s)) (q_pending (s_q s)) = 0%nat /\ cnt (of_batch (s_next s)) (s_running s) = 0%nat.
+  Proof.
+    intro HO. split.
+    - destruct (cnt (of_batch (s_next s)) (q_pending (s_q s))) eqn:E; [reflexivity|].
+      destruct (cnt_pos_in (of_batch (s_next s)) (q_pending (s_q s))) as (t & Ht & HP); [lia|].
+      pose proof (no_task_of_fresh s t HO (in_or_app _ _ _ (or_introl Ht))). unfold of_batch in HP. lia.
+    - destruct (cnt (of_batch (s_next s)) (s_running s)) eqn:E; [reflexivity|].
+      destruct (cnt_pos_in (of_batch (s_next s)) (s_running s)) as (t & Ht & HP); [lia|].
+      pose proof (no_task_of_fresh s t HO (in_or_app _ _ _ (or_intror Ht))). unfold of_batch in HP. lia.
+  Qed.
+
+  Lemma step_submit_open s prio sizes s' : Open s -> step pick s (EvSubmit prio sizes) = Some s' -> Open s'.
+  Proof.
+    intros HO Hst. cbn [step] in Hst. rewrite (o_notdone s HO) in Hst. inversion Hst; subst s'; clear Hst.
+    destruct (fold_push prio (s_next s) sizes (s_q s)) as (Hp & Hi & Hby & Hf & Hd). cbn zeta in *.
+    destruct (cnt_zero_fresh s HO) as [Hz1 Hz2].
+    constructor; cbn [s_q s_running s_batches s_next s_cancelled].
+    - rewrite Hd. apply (o_notdone s HO).
+    - rewrite Hi. apply (o_iops s HO).
+    - rewrite map_app. cbn [map b_id]. apply NoDup_app_intro_single; [apply (o_ids s HO)|].
+      intro Hin. apply in_map_iff in Hin. destruct Hin as (b & Hb1 & Hb2).
+      pose proof (o_fresh s HO) as Hfr. rewrite Forall_forall in Hfr. specialize (Hfr b Hb2). lia.
+    - apply Forall_app. split.
+      + eapply Forall_impl; [|apply (o_fresh s HO)]. cbn beta. intros; lia.
+      + constructor; [cbn [b_id]; lia | constructor].
+    - intros t Ht. rewrite Hp in Ht. rewrite <- app_assoc in Ht.
+      apply in_app_or in Ht. destruct Ht as [Ht | Ht].
+      + destruct (o_tasks s HO t (in_or_app _ _ _ (or_introl Ht))) as (b & Hb1 & Hb2).
+        exists b. split; [apply in_or_app; left; exact Hb1 | exact Hb2].
+      + apply in_app_or in Ht. destruct Ht as [Ht | Ht].
+        * apply in_map_iff in Ht. destruct Ht as (sz & <- & _).
+          eexists. split; [apply in_or_app; right; left; reflexivity | split; reflexivity].
+        * destruct (o_tasks s HO t (in_or_app _ _ _ (or_intror Ht))) as (b & Hb1 & Hb2).
+          exists b. split; [apply in_or_app; left; exact Hb1 | exact Hb2].
+    - apply Forall_app. split.
+      + pose proof (o_counts s HO) as Hc. pose proof (o_fresh s HO) as Hfr.
+        rewrite Forall_forall in *. intros b Hb. specialize (Hc b Hb). specialize (Hfr b Hb).
+        unfold pend_of, run_of in *. cbn [s_q s_running]. rewrite Hp, cnt_app, cnt_new_tasks.
+        destruct (s_next s =? b_id b) eqn:E; [lia|]. lia.
+      + constructor; [|constructor]. unfold pend_of, run_of. cbn [s_q s_running b_id b_nreq b_fin b_deliv].
+        rewrite Hp, cnt_app, cnt_new_tasks, N.eqb_refl, Hz1, Hz2. lia.
+    - intro p. rewrite Hf, sumf_app. cbn [sumf fold_right]. unfold deliv_at at 2. cbn [b_prio b_deliv].
+      rewrite (o_flight s HO p). destruct (prio =? p); lia.
+    - apply (o_nocancel s HO).
+  Qed.
+  Lemma next_task_inv q t q' : next_task pick q = Some (t, q') ->
+    exists rest, pick (q_pending q) = Some (t, rest) /\ can_deliver q t = true /\
+      q' = mk_q (q_iops q - 1) (q_bytes q - as_i64 (t_bytes t))%Z rest (pif_push (t_prio t) (q_inflight q)) (q_done q).
+  Proof.
+    unfold next_task. destruct (pick (q_pending q)) as [[t0 rest]|]; [|discriminate].
+    destruct (can_deliver q t0) eqn:E; [|discriminate]. intro H. inversion H; subst. exists rest. repeat split. exact E.
+  Qed.
+
+  Lemma can_deliver_iops q t : can_deliver q t = true -> 1 <= q_iops q.
+  Proof. unfold can_deliver. destruct (q_iops q =? 0) eqn:E; [discriminate | lia]. Qed.
+
+  Lemma step_deliver_open s s' : Open s -> step pick s EvDeliver = Some s' -> Open s'.
+  Proof.
+    intros HO Hst. cbn [step] in Hst.
+    destruct (next_task pick (s_q s)) as [[t q']|] eqn:En; [|discriminate].
+    inversion Hst; subst s'; clear Hst.
+    destruct (next_task_inv _ _ _ En) as (rest & Hpick & Hcan & Hq'). subst q'.
+    pose proof (pick_perm _ _ _ Hpick) as Hperm.
+    pose proof (can_deliver_iops _ _ Hcan) as Hio.
+    assert (Ht : In t (q_pending (s_q s) ++ s_running s)).
+    { apply in_or_app. left. eapply Permutation_in; [apply Permutation_sym; exact Hperm | left; reflexivity]. }
+    destruct (o_tasks s HO t Ht) as (bt & Hbt & Hbid & Hbprio).
+    set (h := fun b => mk_batch (b_id b) (b_prio b) (b_nreq b) (S (b_deliv b)) (b_fin b) (b_bytes b) (b_err b)).
+    assert (Hcnt : forall i, cnt (of_batch i) (q_pending (s_q s)) = ((if of_batch i t then 1 else 0) + cnt (of_batch i) rest)%nat).
+    { intro i. rewrite (cnt_perm _ _ _ Hperm). apply cnt_cons. }
+    constructor; cbn [s_q s_running s_batches s_next s_cancelled q_done q_iops q_pending q_inflight].
+    - apply (o_notdone s HO).
+    - pose proof (o_iops s HO). cbn [length]. lia.
+    - rewrite upd_batch_ids; [apply (o_ids s HO) | reflexivity].
+    - pose proof (o_fresh s HO) as Hf. rewrite Forall_forall in *. intros b' Hb'.
+      apply upd_batch_in in Hb'. destruct Hb' as (b & Hb & ->). specialize (Hf b Hb).
+      destruct (b_id b =? t_batch t); exact Hf.
+    - intros t' Ht'.
+      assert (Ht'' : In t' (q_pending (s_q s) ++ s_running s)).
+      { apply in_app_or in Ht'. apply in_or_app. destruct Ht' as [H | [<- | H]].
+        - left. eapply Permutation_in; [apply Permutation_sym; exact Hperm | right; exact H].
+        - left. eapply Permutation_in; [apply Permutation_sym; exact Hperm | left; reflexivity].
+        - right. exact H. }
+      destruct (o_tasks s HO t' Ht'') as (b & Hb & Hid & Hpr).
+      exists (if b_id b =? t_batch t then h b else b). split; [apply upd_batch_in'; exact Hb|].
+      destruct (b_id b =? t_batch t); split; assumption.
+    - pose proof (o_counts s HO) as Hc. rewrite Forall_forall in *. intros b' Hb'.
+      apply upd_batch_in in Hb'. destruct Hb' as (b & Hb & ->). specialize (Hc b Hb).
+      unfold pend_of, run_of in *. cbn [s_q s_running q_pending].
+      destruct (b_id b =? t_batch t) eqn:E.
+      + unfold h. cbn [b_id b_nreq b_deliv b_fin]. rewrite cnt_cons. rewrite (Hcnt (b_id b)) in Hc.
+        unfold of_batch in *. rewrite N.eqb_sym in E. rewrite E in *. lia.
+      + rewrite cnt_cons. rewrite (Hcnt (b_id b)) in Hc.
+        unfold of_batch in *. rewrite N.eqb_sym in E. rewrite E in *. lia.
+    - intro p. rewrite occ_push, (o_flight s HO p).
+      pose proof (sumf_upd (deliv_at p) (t_batch t) h (s_batches s) bt (o_ids s HO) Hbt Hbid) as Hs.
+      assert (H1 : deliv_at p bt = if t_prio t =? p then b_deliv bt else 0%nat) by (unfold deliv_at; now rewrite Hbprio).
+      assert (H2 : deliv_at p (h bt) = if t_prio t =? p then S (b_deliv bt) else 0%nat)
+        by (unfold deliv_at, h; cbn [b_prio b_deliv]; now rewrite Hbprio).
+      rewrite H1, H2 in Hs. rewrite (N.eqb_sym p (t_prio t)). destruct (t_prio t =? p); lia.
+    - apply (o_nocancel s HO).
+  Qed.
+
+  Lemma step_complete_open s k s' : Open s -> step pick s (EvComplete k) = Some s' -> Open s'.
+  Proof.
+    intros HO Hst. cbn [step] in Hst.
+    destruct (nth_error (s_running s) k) as [t|] eqn:En; [|discriminate].
+    inversion Hst; subst s'; clear Hst.
+    assert (Ht : In t (q_pending (s_q s) ++ s_running s)) by (apply in_or_app; right; eapply nth_error_In; exact En).
+    destruct (o_tasks s HO t Ht) as (bt & Hbt & Hbid & Hbprio).
+    unfold finish_task.
+    set (h := fun b => mk_batch (b_id b) (b_prio b) (b_nreq b) (b_deliv b) (S (b_fin b)) (b_bytes b + t_bytes t) (b_err b || false)).
+    constructor; cbn [s_q s_running s_batches s_next s_cancelled on_iop_complete q_done q_iops q_pending q_inflight].
+    - apply (o_notdone s HO).
+    - pose proof (o_iops s HO). rewrite (remove_nth_length _ _ _ En) in H. lia.
+    - rewrite upd_batch_ids; [apply (o_ids s HO) | reflexivity].
+    - pose proof (o_fresh s HO) as Hf. rewrite Forall_forall in *. intros b' Hb'.
+      apply upd_batch_in in Hb'. destruct Hb' as (b & Hb & ->). specialize (Hf b Hb).
+      destruct (b_id b =? t_batch t); exact Hf.
+    - intros t' Ht'.
+      assert (Ht'' : In t' (q_pending (s_q s) ++ s_running s)).
+      { apply in_app_or in Ht'. apply in_or_app. destruct Ht' as [H | H]; [left; exact H | right; eapply remove_nth_in; exact H]. }
+      destruct (o_tasks s HO t' Ht'') as (b & Hb & Hid & Hpr).
+      exists (if b_id b =? t_batch t then h b else b). split; [apply upd_batch_in'; exact Hb|].
+      destruct (b_id b =? t_batch t); split; assumption.
+    - pose proof (o_counts s HO) as Hc. rewrite Forall_forall in *. intros b' Hb'.
+      apply upd_batch_in in Hb'. destruct Hb' as (b & Hb & ->). specialize (Hc b Hb).
+      unfold pend_of, run_of in *. cbn [s_q s_running q_pending on_iop_complete].
+      rewrite (cnt_remove_nth (of_batch (b_id b)) k _ t En) in Hc.
+      destruct (b_id b =? t_batch t) eqn:E.
+      + unfold h. cbn [b_id b_nreq b_deliv b_fin]. unfold of_batch in *. rewrite N.eqb_sym in E. rewrite E in *. lia.
+      + unfold of_batch in *. rewrite N.eqb_sym in E. rewrite E in *. lia.
+    - intro p. rewrite (o_flight s HO p). symmetry. apply sumf_upd_same. intro b. reflexivity.
+    - apply (o_nocancel s HO).
+  Qed.
+
+  Lemma step_consume_open s k s' : Open s -> step pick s (EvConsume k) = Some s' -> Open s'.
+  Proof.
+    intros HO Hst. cbn [step] in Hst.
+    destruct (nth_error (s_batches s) k) as [b|] eqn:En; [|discriminate].
+    destruct (b_finished b) eqn:Efin; [|discriminate].
+    inversion Hst; subst s'; clear Hst.
+    unfold b_finished in Efin. apply Nat.eqb_eq in Efin.
+    pose proof (nth_error_In _ _ En) as Hb.
+    pose proof (o_counts s HO) as Hc. rewrite Forall_forall in Hc. pose proof (Hc b Hb) as [Hc1 Hc2].
+    assert (Hp0 : pend_of (b_id b) s = 0%nat) by lia. assert (Hr0 : run_of (b_id b) s = 0%nat) by lia.
+    assert (Hdel : b_deliv b = b_nreq b) by lia.
+    constructor; cbn [s_q s_running s_batches s_next s_cancelled on_bytes_consumed q_done q_iops q_pending q_inflight].
+    - apply (o_notdone s HO).
+    - apply (o_iops s HO).
+    - rewrite map_remove_nth. apply NoDup_remove_nth. apply (o_ids s HO).
+    - pose proof (o_fresh s HO) as Hf. rewrite Forall_forall in *. intros b' Hb'. apply Hf. eapply remove_nth_in; exact Hb'.
+    - intros t Ht. destruct (o_tasks s HO t Ht) as (bt & Hbt & Hid & Hpr).
+      exists bt. split; [|split; assumption].
+      destruct (in_remove_nth k _ b bt En Hbt) as [-> | H]; [|exact H].
+      exfalso. apply in_app_or in Ht. destruct Ht as [Ht | Ht].
+      + pose proof (cnt_in_pos (of_batch (b_id b)) _ t Ht) as Hpos. unfold pend_of in Hp0. unfold of_batch in Hpos at 1.
+        rewrite Hid, N.eqb_refl in Hpos. specialize (Hpos eq_refl). lia.
+      + pose proof (cnt_in_pos (of_batch (b_id b)) _ t Ht) as Hpos. unfold run_of in Hr0. unfold of_batch in Hpos at 1.
+        rewrite Hid, N.eqb_refl in Hpos. specialize (Hpos eq_refl). lia.
+    - rewrite Forall_forall. intros b' Hb'. apply (Hc b'). eapply remove_nth_in; exact Hb'.
+    - intro p.
+      pose proof (sumf_remove_nth (deliv_at p) k _ b En) as Hs.
+      pose proof (sumf_in_le (deliv_at (b_prio b)) _ b Hb) as Hle.
+      rewrite <- (o_flight s HO (b_prio b)) in Hle. unfold deliv_at in Hle at 1. rewrite N.eqb_refl in Hle.
+      rewrite occ_remove_n by lia. rewrite (o_flight s HO p), Hs.
+      unfold deliv_at at 1. rewrite (N.eqb_sym p (b_prio b)). destruct (b_prio b =? p); lia.
+    - apply (o_nocancel s HO).
+  Qed.
+
+End QueueProofs.
